@@ -67,6 +67,31 @@ impl SimNet {
         self.set_policy(b, a, p);
     }
 
+    /// deliver what was held on its way from `src` (in order) and switch that direction back to Deliver; packets held in
+    /// other directions stay held
+    pub fn release_from(&self, src: SocketAddr) {
+        let mut n = self.0.lock().unwrap();
+        for ((s, _), v) in n.policy.iter_mut() {
+            if *s == src && *v == Policy::Hold {
+                *v = Policy::Deliver;
+            }
+        }
+        let held = std::mem::take(&mut n.held);
+        for (s, dst, data) in held {
+            if s != src {
+                n.held.push((s, dst, data));
+                continue;
+            }
+            if let Some(p) = n.ports.get_mut(&dst) {
+                p.queue.push_back((s, data));
+                if let Some(w) = p.waker.take() {
+                    w.wake();
+                }
+            }
+            n.delivered += 1;
+        }
+    }
+
     /// deliver everything that was held (in order) and switch held directions back to Deliver
     pub fn release(&self) {
         let mut n = self.0.lock().unwrap();
